@@ -109,7 +109,8 @@ def metricsJHandlers : List (String × JHandler) := [
     let md : Manager.Mode := if attach == "original" then Manager.Mode.original cow else Manager.Mode.current cow
     -- treatment of failing backtests: as the source says now (or as before the repair), unless the request fixes it
     let fm0 : Manager.FailMode := if attach == "original" then Manager.FailMode.beforeRepair else Manager.FailMode.current
-    let fm : Manager.FailMode := ⟨flag "catches" fm0.catchesInProcess, flag "poolWaits" fm0.poolWaits⟩
+    let fm : Manager.FailMode := ⟨flag "catches" fm0.catchesInProcess, flag "forkPoolWaits" fm0.forkPoolWaits,
+      flag "argsPoolWaits" fm0.argsPoolWaits⟩
     let effs ← jArr j "effects"
     let fails : List Bool ← match jOpt j "fails" with
       | none => pure []
